@@ -8,6 +8,12 @@ Proof. unfold spoken. rewrite filter_app, app_length. reflexivity. Qed.
 Lemma spoken_cons e a : spoken (e :: a) = ((if speaking e then 1 else 0) + spoken a)%nat.
 Proof. unfold spoken. cbn [filter]. destruct (speaking e); reflexivity. Qed.
 
+Lemma speaking_lit id : speaking (ev_lit id) = false.
+Proof.
+  unfold speaking, ev_lit, ev_text, ev_x, ev_tts_sp, ev_translate.
+  rewrite !(proj2 (N.eqb_neq _ _)) by lia. reflexivity.
+Qed.
+
 Theorem L_speaks_sound :
   (forall i, speaksb i = true -> forall s, (0 < spoken (fst (tr_item i s)))%nat) /\
   (forall r, speaks_items r = true -> forall s, (0 < spoken (fst (tr_items r s)))%nat) /\
@@ -15,7 +21,7 @@ Theorem L_speaks_sound :
   (forall p, speaks_part p = true -> forall s, (0 < spoken (fst (tr_part p s)))%nat).
 Proof.
   apply rule_ast_ind.
-  - (* IText *) intros b H s. cbn in H. subst b. cbn. lia.
+  - (* IText *) intros b id H s. cbn [speaksb] in H. subst b. cbn [tr_item fst]. rewrite !spoken_cons, speaking_lit. cbn. lia.
   - (* IX *) intros _ s. cbn. lia.
   - (* ITts *) intros sp body IH H s. cbn [speaksb] in H. cbn [tr_item].
     destruct (tr_items body s) as [e s1] eqn:E. cbn [fst]. rewrite spoken_cons.
